@@ -16,6 +16,9 @@ struct ArchMix {
   Layout L; Source src; int64_t pos = 0; int dfs = 48000, dch = 2, dfmt = FMT_I16;
   int expert = OPUS_FRAMESIZE_ARG;
   bool concealed_recently = false;
+  bool loud = false; char ctxbuf[64] = {0};   // 'harsh input' = a source at >= 0.4 of full scale, or a steady tonal / periodic source (tones, sweep, square, sine pair, chord,
+  // clicks, DC) has been fed: the regime in which the noise-shaping quantiser's integer state saturates or wraps
+  void ctx(const char *what, size_t level) { snprintf(ctxbuf, sizeof ctxbuf, "%s_level%zu%s", what, level, loud ? "_harsh_input" : ""); g_ctx = ctxbuf; }
   explicit ArchMix(Run &r) : run(r) {}
 #ifdef OPSIM_FIXED
   static const bool kFixed = true;
@@ -69,6 +72,7 @@ struct ArchMix {
     if (src.fam == SRC_NONFINITE) fmt = FMT_F32;
     std::vector<Bytes> pk(encs.size()); std::vector<opus_uint32> rng(encs.size()); int r0 = 0;
     for (size_t a = 0; a < encs.size(); a++) {
+      ctx("enc", a);
       int r = encs[a]->encode(pcm.data(), frame, max_bytes, fmt, pk[a]);
       rng[a] = encs[a]->final_range();
       if (a == 0) { r0 = r; run.ev((uint64_t)r); run.evb(pk[0].data(), pk[0].size()); }
@@ -78,8 +82,9 @@ struct ArchMix {
         // the AVX2 noise-shaping quantiser deliberately does not reproduce an overflow of the C code ("more correct, but it won't overflow
         // like the C code in some rare cases", silk/x86/NSQ_del_dec_avx2.c): only the AVX2 replica of a SILK / hybrid packet differs
         bool others_agree = true; for (size_t b2 = 1; b2 < a; b2++) if (pk[b2] != pk[0]) others_agree = false;
-        bool avx2_silk = a == 4 && a + 1 == encs.size() && others_agree && L.kind == K_SINGLE && !pk[0].empty() && toc_mode(pk[0][0]) != 2;
-        REPORT(run, prop, avx2_silk ? "fixed_point_packets_differ_avx2_only_silk_layer" : "fixed_point_packets_differ_across_levels", "level %zu: len %d vs %d, first difference at byte %zu, range %08x vs %08x (toc %02x frame %d; levels below it agree with level 0)", a, r, r0, k, rng[a], rng[0], pk[0].empty() ? 0 : pk[0][0], frame);
+        bool avx2_silk = loud && a == 4 && a + 1 == encs.size() && others_agree && !pk[0].empty() && toc_mode(pk[0][0]) != 2;   // (multistream: the TOC of the first stream)
+        if (getenv("OPSIM_CALIB")) fprintf(stderr, "C15AVX2 level=%zu others_agree=%d fam=%d amp=%lld mode=%d loud=%d\n", a, (int)others_agree, src.fam, (long long)src.amp, pk[0].empty() ? -1 : toc_mode(pk[0][0]), (int)loud);
+        REPORT(run, prop, avx2_silk ? "fixed_point_packets_differ_avx2_only_silk_layer_harsh_input" : "fixed_point_packets_differ_across_levels", "level %zu: len %d vs %d, first difference at byte %zu, range %08x vs %08x (toc %02x frame %d; levels below it agree with level 0)", a, r, r0, k, rng[a], rng[0], pk[0].empty() ? 0 : pk[0][0], frame);
       }
       if (!kFixed && a > 0 && pk[a] != pk[0]) run.count("float_packets_differ_across_levels");
     }
@@ -94,6 +99,7 @@ struct ArchMix {
       uint64_t h0 = 0; int d0 = 0; std::vector<float> ref;
       for (size_t b = 0; b < decs[a].size(); b++) {
         DecNode &d = *decs[a][b]; uint64_t h = 0; std::vector<float> out_pcm; int dr;
+        ctx("dec", b);
         bool fin = true;
         if (how == 1) dr = d.decode(nullptr, 0, out, 0, dfmt, &out_pcm, &h, nullptr, &fin);
         else if (how == 2) { dr = d.decode(pk[a].data(), (int)pk[a].size(), out, 1, dfmt, &out_pcm, &h, nullptr, &fin); }
@@ -132,7 +138,9 @@ struct ArchMix {
       if (op.k == "NEW") op_new(op);
       else if (op.k == "CTL") op_ctl(op);
       else if (op.k == "DCTL") op_dctl(op);
-      else if (op.k == "SRC") { src.fam = (int)(((op.arg(0) % SRC_NFAM) + SRC_NFAM) % SRC_NFAM); src.p0 = op.arg(1); src.amp = op.arg(2); src.seed = op.arg(3); src.p3 = op.arg(4); }
+      else if (op.k == "SRC") { int f_ = (int)(((op.arg(0) % SRC_NFAM) + SRC_NFAM) % SRC_NFAM);
+        if (op.arg(2) >= 400 || f_ == SRC_TONES || f_ == SRC_SWEEP || f_ == SRC_SQUARE || f_ == SRC_STEREO || f_ == SRC_MUSIC || f_ == SRC_CLICKS || f_ == SRC_DC) loud = true;
+        src.fam = (int)(((op.arg(0) % SRC_NFAM) + SRC_NFAM) % SRC_NFAM); src.p0 = op.arg(1); src.amp = op.arg(2); src.seed = op.arg(3); src.p3 = op.arg(4); }
       else if (op.k == "ENC") op_enc(op);
     }
     if (nlev > 1) run.fired = true;
